@@ -111,7 +111,7 @@ impl Property for Faults {
     }
     fn budget(&self, tier: Tier) -> Budget {
         Budget {
-            cases: tier.pick(400_000, 25_000_000),
+            cases: tier.pick(1_500_000, 25_000_000),
             tape_len: 2500,
         }
     }
@@ -715,7 +715,7 @@ impl Property for NoFault {
     }
     fn budget(&self, tier: Tier) -> Budget {
         Budget {
-            cases: tier.pick(100_000, 5_000_000),
+            cases: tier.pick(400_000, 5_000_000),
             tape_len: 2000,
         }
     }
